@@ -3,6 +3,7 @@ package nexus
 import (
 	"context"
 	"fmt"
+	"strings"
 	"sync"
 )
 
@@ -236,14 +237,33 @@ type VLANStats struct {
 }
 
 // LoadFromStore loads existing allocations from the store.
+//
+// A VLAN pair identifies exactly one NTE. A stored record whose pair is already
+// held by another NTE (an earlier record, or a live allocation) is therefore not
+// loaded: the first holder keeps the pair, the later NTE stays without an
+// allocation (it gets a fresh pair on its next Allocate) and the conflict is
+// reported in the returned error after all other records have been loaded. A
+// record for an NTE that already holds a different pair replaces it, and the old
+// pair becomes available again.
 func (v *VLANAllocator) LoadFromStore(ctx context.Context, ntes []*NTE) error {
 	v.mu.Lock()
 	defer v.mu.Unlock()
+
+	var conflicts []string
 
 	for _, nte := range ntes {
 		if nte.STag == 0 || nte.CTag == 0 {
 			continue
 		}
+
+		if holder, used := v.sTagUsage[nte.STag][nte.CTag]; used && holder != nte.ID {
+			conflicts = append(conflicts,
+				fmt.Sprintf("%s: s%d.c%d already held by %s", nte.ID, nte.STag, nte.CTag, holder))
+			continue
+		}
+
+		// Drop whatever this NTE held before (its usage entry must not linger)
+		v.releaseUnlocked(nte.ID)
 
 		alloc := &VLANAllocation{
 			STag:  nte.STag,
@@ -258,6 +278,10 @@ func (v *VLANAllocator) LoadFromStore(ctx context.Context, ntes []*NTE) error {
 		v.sTagUsage[nte.STag][nte.CTag] = nte.ID
 	}
 
+	if len(conflicts) > 0 {
+		return fmt.Errorf("%d stored VLAN record(s) conflict and were not loaded: %s",
+			len(conflicts), strings.Join(conflicts, "; "))
+	}
 	return nil
 }
 
